@@ -103,6 +103,10 @@ pub(crate) fn parse_directive(jsx_attr: &JSXAttr, is_component: bool) -> Directi
                         }
                     }
                 }
+                if modifiers.is_none() {
+                    // no modifier list in the array: the `_suffix` modifiers apply
+                    modifiers = Some(splitted.map(Atom::from).collect());
+                }
             } else {
                 modifiers = Some(splitted.map(Atom::from).collect());
             }
@@ -280,6 +284,10 @@ fn parse_v_model_directive(
                         }
                     }
                 }
+            }
+            if modifiers.is_none() {
+                // no modifier list in the array: the `_suffix` modifiers apply
+                modifiers = Some(splitted_attr_name.map(Atom::from).collect());
             }
         } else {
             if is_component && argument.is_none() {
